@@ -117,3 +117,77 @@ Definition ft_leaf (c : tr_cfg) (dest : path) (sv : ft_saved) : option path :=
   end.
 
 End FaultTie.
+
+(* ================================ the sender ================================
+   [tr_sender] fed with an ARBITRARY sequence of delivered answers; the ghost remembers, for the
+   file under way, the lengths the sender expects acknowledged (the frames it sent, the finish flag
+   included; protocol 1: the chunk lengths) and the answers delivered since the SIZE echo.  One
+   [ft_done] per file the sender counts as done (the echo of the MD5 message accepted). *)
+Section FaultTieSender.
+Variable digest : Type.
+Variable H : list byte -> digest.
+Variable deq : digest -> digest -> bool.
+Variable zcomp : list (list byte) -> list (list byte).
+Variable zl : list byte -> list byte.
+
+Notation msg := (tr_msg digest).
+Notation sender := (tr_sender digest H deq zcomp zl).
+
+Definition ft_ack (m : msg) : ack digest :=
+  match m with
+  | TrSuccAck _ l s => AFrame digest (Z.of_N l) (Z.of_N s)
+  | TrSuccInt _ n => AFinal digest (Z.of_N n)
+  | TrSuccDigest _ d => ADigest digest d
+  | TrKeepAlive _ => AKeep digest
+  | _ => AOther digest
+  end.
+
+Record ft_sghost := mkFtSGhost { sg_sent : list N; sg_msgs : list msg }.
+Definition ft_sghost0 : ft_sghost := mkFtSGhost [] [].
+
+Definition ft_sghost_step (st : tr_sstate) (m : msg) (st1 : tr_sstate) (g : ft_sghost) : ft_sghost :=
+  match ss_phase st, ss_phase st1 with
+  | SpSize, SpAcks pending => mkFtSGhost pending []
+  | SpSize, SpV1 chs expect => mkFtSGhost (expect :: map tr_blen chs) []
+  | SpSize, SpMd5 => mkFtSGhost [] []
+  | _, _ => mkFtSGhost (sg_sent g) (sg_msgs g ++ [m])
+  end.
+
+Record ft_done := mkFtDone {
+  fd_entry : tr_entry;        (* the source entry *)
+  fd_sent : list N;           (* the lengths it expected acknowledged *)
+  fd_msgs : list msg          (* the answers delivered since the SIZE echo, the digest echo included *)
+}.
+
+Fixpoint ft_srun (c : tr_cfg) (st : tr_sstate) (g : ft_sghost) (ms : list msg)
+  : tr_sstate * list msg * list ft_done :=
+  match ms with
+  | [] => (st, [], [])
+  | m :: r =>
+    match sender c st m with
+    | (st1, outs) =>
+      let g1 := ft_sghost_step st m st1 g in
+      let dn := match ss_phase st, m, ss_todo st with
+                | SpMd5, TrSuccDigest _ _, (e, _) :: _ =>
+                  match ss_phase st1 with SpFail => [] | _ => [mkFtDone e (sg_sent g) (sg_msgs g1)] end
+                | _, _, _ => []
+                end in
+      match ft_srun c st1 g1 r with
+      | (st2, outs2, dns) => (st2, outs ++ outs2, dn ++ dns)
+      end
+    end
+  end.
+
+Definition ft_send (c : tr_cfg) (ess : list (tr_entry * tr_sched)) (ms : list msg)
+  : tr_sstate * list msg * list ft_done :=
+  match tr_sender_init digest c ess with
+  | (st, outs) => match ft_srun c st ft_sghost0 ms with (st2, outs2, dns) => (st2, outs ++ outs2, dns) end
+  end.
+
+Definition ft_sverdict (c : tr_cfg) (dn : ft_done) : bool :=
+  let mine := H (te_data (fd_entry dn)) in
+  if tr_pipeline c then
+    send_v2 digest deq (Z.of_N (te_size (fd_entry dn))) mine (map Z.of_N (fd_sent dn)) (map ft_ack (fd_msgs dn))
+  else send_v1 digest deq mine (map Z.of_N (fd_sent dn)) (map ft_ack (fd_msgs dn)).
+
+End FaultTieSender.
